@@ -106,3 +106,89 @@ def dominated_by_edge(body, edge):
     from analysis import cfg
     rest = cfg.reach(body, 0, removed_edges=[edge])
     return {b for b in body.reachable if b not in rest}
+
+
+# ---------------------------------------------------------------------------
+# role-based variable selection (rules must not depend on the debug NAME of a local: renaming a variable is the most
+# common behaviour-preserving edit)
+
+import re as _re2
+from analysis.pat import Pred as _Pred
+from analysis.sym import core as _core, nosite as _nosite, var_defs as _var_defs, defs_of as _defs_of, symbolizer as _symz, simplify as _simp
+
+
+def V(local):
+    """pattern: the mutable-state node of exactly this local"""
+    return _Pred(lambda t: isinstance(t, tuple) and t and t[0] == 'var' and len(t) > 2 and t[2] == local)
+
+
+def state_locals(body, ty_regex=None):
+    """locals that sym treats as mutable state (named + mutably borrowed, or multi-definition named), optionally by type"""
+    from analysis.sym import _defs
+    _defs(body)
+    out = []
+    rx = _re2.compile(ty_regex) if ty_regex else None
+    for v in body.vars:
+        if 'pl' not in v or v['pl']['p']:
+            continue
+        l = v['pl']['l']
+        if l <= body.arg_count:
+            continue
+        whole, partial = _defs_of(body, l)
+        is_state = l in body._mutborrowed or len(whole) > 1 or partial
+        if not is_state:
+            continue
+        if rx is not None and not rx.search(body.local_ty(l)):
+            continue
+        if l not in out:
+            out.append(l)
+    return out
+
+
+def the_state_local(body, ty_regex, what):
+    c = state_locals(body, ty_regex)
+    if len(c) != 1:
+        raise AnchorMissing('%s: expected one mutable local of type /%s/ in %s, found %d' % (what, ty_regex, norm_path(body.path), len(c)))
+    return c[0]
+
+
+def receiver_var(body, term, i=0):
+    """local index of the mutable-state variable that is argument i of the call (through &mut / deref), or None"""
+    from analysis.sym import sym as _sym
+    t = _core(_sym(body, term.args[i]))
+    if isinstance(t, tuple) and t and t[0] == 'var':
+        return t[2]
+    return None
+
+
+def local_defs(body, local):
+    """[(site, tree)] of the whole definitions of a local"""
+    whole, partial = _defs_of(body, local)
+    z = _symz(body)
+    return [(d, _simp(z.rvalue(d.rv, 0, ())) if hasattr(d, 'rv') else _simp(z.call(d))) for d in whole]
+
+
+def stores_to_local(body, local):
+    return [(s, v) for s, v in local_defs(body, local) if hasattr(s, 'rv')]
+
+
+def resolve_upvars(ctx, clo, t, depth=0):
+    """replace ('upvar', i, name) nodes of a closure-body tree by the captured operand tree of the creating body
+    (recursively through nested closures), so that rules do not depend on the names of captured variables"""
+    from analysis.sym import sym as _sym
+    if depth > 4 or not isinstance(t, tuple) or not t:
+        return t
+    if t[0] == 'upvar':
+        par = ctx.facts.by_path.get(clo.parent, [])
+        if len(par) == 1:
+            p = par[0]
+            for s, d in p.closures_created():
+                if d == clo.path:
+                    ops = s.rv.ops
+                    if t[1] < len(ops):
+                        r = _core(_sym(p, ops[t[1]]))
+                        if p.kind == 'Closure':
+                            return resolve_upvars(ctx, p, r, depth + 1)
+                        return r
+        return t
+    return tuple(resolve_upvars(ctx, clo, x, depth) if isinstance(x, tuple) else x for x in t)
